@@ -54,8 +54,8 @@ PROPS = {
          "A1-A3, A7, A8b (an operation on a child changes only that child's subtree: the modifies lists; the same frame is what the "
          "contract claims for the node itself), node sizes >= 1; L-height argued in DESIGN.md 5.4; _Tree.minKey assumed total on a "
          "non-empty subtree", "7/C03 and 12.7"),
- "C06": (True, "other", T_P + BOUNDED,
-         'Proved (Python): Bucket/Set __getstate__ emit the documented tuple, __setstate__ reads it back (TypeError exactly for a non-tuple), and the round trip x.__setstate__(y.__getstate__()) restores ordered contents, link and sortedness (lemma programs over the contracts). Bounded: tree states, pickle protocols 0-5, copy, C/Python byte identity and cross-loading, stored containers (pickle_rt).',
+ "C06": (True, "other", T_P + "; " + T_C + BOUNDED,
+         'Proved (Python): Bucket/Set __getstate__ emit the documented tuple, __setstate__ reads it back (TypeError exactly for a non-tuple), and the round trip x.__setstate__(y.__getstate__()) restores ordered contents, link and sortedness (lemma programs over the contracts); the tree state functions likewise. C: bucket_getstate emits exactly the documented tuple for every length and content (F-STATE). Bounded: C __setstate__ and tree states, pickle protocols 0-5, copy, C/Python byte identity and cross-loading, stored containers (pickle_rt).',
          'A1, A7; pickle/copy and the C state code are outside both engines; recorded findings (non-root node inlining its only leaf, copy.copy of a Python tree, fs memo sharing)', "7/C06 and 12"),
  "C07": (True, "proof", T_P + "; bounded exhaustive run-time contract stand-in (merge_rt) for the C implementation and reason-code agreement",
          "Proved (Python, both leaf kinds, all six loops): the merge is returned exactly when the statement says - on a normal return the state holds, in key order, exactly C's entry for keys C changed and N's entry otherwise (values included), no key changed by both, first-key rule, equal links, non-empty sides and merge; every raise site is justified by its reason class; only BTreesConflictError is raised; one-leaf tree states unwrap, multi-leaf states are refused (reason 11). Bounded, exhaustive over the stated scope: the C implementation and reason-code agreement (merge_rt).",
